@@ -4,6 +4,7 @@
 
 mod ops;
 mod kf;
+mod wrapmodel;
 
 use ops::*;
 use proptest::prelude::*;
@@ -214,15 +215,30 @@ impl Engine for Arith {
         "arith"
     }
     fn props(&self) -> Vec<&'static str> {
-        vec!["C01", "C02", "C06", "C07"]
+        vec!["C01", "C02", "C06", "C07", "C18"]
     }
-    fn op_name(&self, _prop: &str, op: u16) -> String {
-        OP_NAMES[op as usize].to_string()
+    fn op_name(&self, prop: &str, op: u16) -> String {
+        if op == PROGRAM {
+            "wrapping_program".to_string()
+        } else if prop == "C18" {
+            W_NAMES[op as usize % W_NAMES.len()].to_string()
+        } else {
+            OP_NAMES[op as usize].to_string()
+        }
     }
-    fn op_from_name(&self, _prop: &str, s: &str) -> Option<u16> {
-        OP_NAMES.iter().position(|n| *n == s).map(|i| i as u16)
+    fn op_from_name(&self, prop: &str, s: &str) -> Option<u16> {
+        if s == "wrapping_program" {
+            Some(PROGRAM)
+        } else if prop == "C18" {
+            W_NAMES.iter().position(|n| *n == s).map(|i| i as u16)
+        } else {
+            OP_NAMES.iter().position(|n| *n == s).map(|i| i as u16)
+        }
     }
     fn strategy(&self, prop: &str, stratum: Option<u16>) -> BoxedStrategy<Case> {
+        if prop == "C18" {
+            return program_strategy(stratum);
+        }
         let ops = ops_of(prop);
         (layout_or(stratum), pick(ops.len()), ing(), ing(), pick(DEP_TABLE.len()), any::<u128>())
             .prop_map(move |(lay, oi, ia, ib, dep, r3)| {
@@ -238,6 +254,12 @@ impl Engine for Arith {
     }
     fn budget(&self, prop: &str, tier: Tier) -> Budget {
         let strata: Vec<u16> = (0..NLAY as u16).collect();
+        if prop == "C18" {
+            return match tier {
+                Tier::Quick => Budget { random: 600_000, per_stratum: 400, strata },
+                Tier::Thorough => Budget { random: 80_000_000, per_stratum: 40_000, strata },
+            };
+        }
         let nops = ops_of(prop).len() as u64;
         match tier {
             Tier::Quick => Budget { random: 1_000_000, per_stratum: 64 * nops, strata },
@@ -310,6 +332,7 @@ impl Engine for Arith {
             "C01" => "cases = (layout, mul|div, a, b) from the operand-class and dependent-operand generators over all 506 layouts, plus the exhaustive 8-bit sub-space; oracle floor(a*b/2^f), trunc(a*2^f/b) in exact integers; asserted on every form (checked/saturating/wrapping/overflowing/operator/assign/by-ref) when the result is representable. Non-trivial: both operands non-zero, |b| != 1.0, result representable, and (bits were discarded, or |result| >= 2^(w-2), or w = 128). distinct = distinct (layout, op, a, b) among non-trivial cases (64-bit hash set, capped; a lower bound when capped).".into(),
             "C02" => "cases = (layout, op in {add,sub,mul,div,mul_int,div_int,neg,abs}, operands); oracle = one exact result R in exact integers, then checked = Some(R) iff representable (None for zero divisor), saturating = clamp(R), wrapping = R mod 2^w, overflowing = (R mod 2^w, !fits); no form may unwind except zero divisor in non-checked division. Non-trivial: R not representable or within 2 ulp of a bound, or zero divisor. distinct as in C01.".into(),
             "C06" => "cases = (layout, rounding op, a): every value of all 8- and 16-bit layouts, generated values (integer +- tiny, ties, bounds) elsewhere; oracle = exact integer rounding of a/2^f; all forms; int+frac == x, and int = floor, 0 <= frac < 1 when the layout has an integer bit. Non-trivial: fractional part non-zero or result not representable.".into(),
+            "C18" => "cases = (layout, initial value, program of 0..8 operations on Wrapping<F>): unary (- ! abs signum ceil floor round round_ties_to_even round_to_zero int frac next_power_of_two rotate), binary + - * / % & | ^ in by-value/by-reference/assign forms, div_euclid/rem_euclid, * / % by an integer of the underlying type, *_euclid_int, shifts by each of the 12 integer types (amounts incl. negative and >= width), sum/product of the values so far (by value and by reference), from_num of integers/floats/fixed of other layouts, from_str in radix 2/8/10/16. Oracle: reference model = value mod 2^w in exact integers, compared after EVERY step; differential against the corresponding wrapping_* call on F; unwinding allowed only for a zero divisor or a non-finite float. Non-trivial: at least one step overflowed in the model.".into(),
             "C07" => "cases = (layout, op in {rem, div_euclid, rem_euclid, rem_int, div_euclid_int, rem_euclid_int}, a, b != 0) (b a fixed-point number or an integer of the underlying type); oracle: r = a - b*trunc(a/b); Euclid: r in [0,|b|), q = (a-r)/b exact, result q*2^f; integer divisor never truncated; all forms incl. plain; overflow iff q*2^f (resp. r) not representable. Non-trivial: a is not a multiple of b and a != 0.".into(),
             _ => String::new(),
         }
@@ -325,11 +348,15 @@ impl Engine for Arith {
             "C01" => vec!["frac=0", "frac=w", "w128", "w128-big-operands", "neg-product-floored", "div-opposite-signs-with-remainder", "min-operand"],
             "C02" => vec!["overflow-high", "overflow-low", "fits", "zero-divisor", "min/-1ulp"],
             "C06" => vec!["tie-positive", "tie-negative", "int-bits=0", "int-bits=1", "frac=0", "overflow"],
+            "C18" => vec!["step-overflowed", "shift-amount>=width", "shift-negative-amount", "zero-divisor", "non-finite-float", "sum", "product", "from_str", "by-reference-form", "assign-form", "int-bits=0"],
             "C07" => vec!["quotient-fits-but-trunc-division-overflows", "int-divisor-not-representable", "negative-remainder-corrected", "overflow", "min%-1ulp"],
             _ => vec![],
         }
     }
     fn eval(&self, prop: &str, c: &Case, chk: bool, kf: &Kf) -> Eval {
+        if c.op == PROGRAM {
+            return eval_program(c, chk, kf);
+        }
         let mut ev = Eval::default();
         let l = L::from_idx(c.lay as usize);
         let op = c.op;
@@ -436,6 +463,198 @@ impl Engine for Arith {
         }
         Ok(checks.len() as u64)
     }
+}
+
+const WOP_TABLE: [u16; 40] = [
+    W_BIN, W_BIN, W_BIN, W_BIN, W_BIN, W_BIN, W_INT_OP, W_INT_OP, W_INT_OP, W_SHIFT, W_SHIFT, W_SHIFT, W_NEG, W_NOT, W_ABS, W_SIGNUM,
+    W_CEIL, W_FLOOR, W_ROUND, W_RTE, W_RTZ, W_INT, W_FRAC, W_NPOT, W_ROTL, W_ROTR, W_DIV_EUCLID, W_REM_EUCLID, W_DIV_EUCLID_INT,
+    W_REM_EUCLID_INT, W_SUM, W_PRODUCT, W_FROM_INT, W_FROM_INT, W_FROM_F64, W_FROM_F32, W_FROM_FIXED, W_FROM_STR, W_BIN, W_INT_OP,
+];
+const LITERALS: [&str; 20] = ["0", "1", "-1", "0.5", "-0.5", "255.996", "1e3", "", ".", "7.", ".25", "+3.75", "-128", "32768", "0.0000152587890625", "1.2.3", "ff.8", "-7f", "101.101", "99999999999999999999999999999999999999999"];
+
+fn program_strategy(stratum: Option<u16>) -> BoxedStrategy<Case> {
+    let step = (pick(WOP_TABLE.len()), ing(), any::<u128>(), any::<u128>());
+    (layout_or(stratum), ing(), proptest::collection::vec(step, 0..=MAX_STEPS), pick(LITERALS.len()), proptest::collection::vec(0u8..10, 0..30))
+        .prop_map(|(lay, ia, steps, lit, digits)| {
+            let l = L::from_idx(lay as usize);
+            let il = int_l(l);
+            let mut prog = Vec::new();
+            for (wi, ig, r1, r2) in steps {
+                let wop = WOP_TABLE[wi];
+                let (x, y) = match wop {
+                    W_BIN => (pattern(l, ig), (r1 % 8) | ((r2 % 6) << 8)),
+                    W_DIV_EUCLID | W_REM_EUCLID => (pattern(l, ig), 0),
+                    W_INT_OP => {
+                        let n = if r2 & 3 == 0 { pattern(il, ig) } else { il.wrap(&Big::from_i64((r1 % 11) as i64 - 5)) };
+                        (n, (r1 >> 8) % 3 | ((r2 >> 8) % 6) << 8)
+                    }
+                    W_DIV_EUCLID_INT | W_REM_EUCLID_INT => (if r2 & 1 == 0 { pattern(il, ig) } else { il.wrap(&Big::from_i64((r1 % 11) as i64 - 5)) }, 0),
+                    W_SHIFT => {
+                        let kind = (r1 % 12) as usize;
+                        let kl = vcore::INTS[kind].as_l();
+                        // amounts: small, around the width, negative, huge
+                        let amt: i128 = match (r1 >> 8) % 6 {
+                            0 | 1 => ((r1 >> 16) % l.w as u128) as i128,
+                            2 => l.w as i128 + ((r1 >> 16) % 5) as i128 - 2,
+                            3 => -(((r1 >> 16) % (2 * l.w as u128)) as i128) - 1,
+                            4 => (r1 >> 16) as i128,
+                            _ => ((r1 >> 16) % 300) as i128,
+                        };
+                        (kl.wrap(&Big::from_i128(amt)), kind as u128 | ((r2 & 1) << 8) | ((r2 >> 8) % 6) << 16)
+                    }
+                    W_ROTL | W_ROTR => ((r1 % 300) | if r1 >> 100 & 7 == 0 { r1 & 0xffff_0000 } else { 0 }, 0),
+                    W_FROM_INT => {
+                        let kind = (r1 % 12) as usize;
+                        (pattern(vcore::INTS[kind].as_l(), ig), kind as u128)
+                    }
+                    W_FROM_F64 => {
+                        let v = match r2 % 6 {
+                            0 => r1 as u64,
+                            1 => f64::NAN.to_bits(),
+                            2 => f64::INFINITY.to_bits() | (r1 as u64 & (1 << 63)),
+                            _ => (l.approx(pattern(l, ig)) * if r2 & 8 == 0 { 1.0 } else { 3.7 }).to_bits(),
+                        };
+                        (v as u128, 0)
+                    }
+                    W_FROM_F32 => {
+                        let v = match r2 % 6 {
+                            0 => r1 as u32,
+                            1 => f32::NAN.to_bits(),
+                            2 => f32::NEG_INFINITY.to_bits(),
+                            _ => ((l.approx(pattern(l, ig)) * if r2 & 8 == 0 { 1.0 } else { 3.7 }) as f32).to_bits(),
+                        };
+                        (v as u128, 0)
+                    }
+                    W_FROM_FIXED => {
+                        let sel = r2 % 4;
+                        (pattern(wrapmodel::FROM_FIXED_SRC[sel as usize], ig), sel)
+                    }
+                    W_FROM_STR => (0, [10u128, 10, 2, 8, 16][(r1 % 5) as usize]),
+                    W_NEG | W_NOT | W_SUM | W_PRODUCT => (0, r2 & 1),
+                    _ => (0, 0),
+                };
+                prog.push((wop, x, y));
+            }
+            let s = if lit == 0 && !digits.is_empty() {
+                let d: String = digits.iter().map(|d| (b'0' + d % 2) as char).collect();
+                format!("{}.{}", &d[..d.len() / 2], &d[d.len() / 2..])
+            } else {
+                LITERALS[lit].to_string()
+            };
+            Case { op: PROGRAM, lay, a: pattern(l, ia), prog, s, ..Case::default() }
+        })
+        .boxed()
+}
+
+fn eval_program(c: &Case, chk: bool, kf: &Kf) -> Eval {
+    use wrapmodel::{model_step, Step};
+    let mut ev = Eval::default();
+    let l = L::from_idx(c.lay as usize);
+    let outs = exec_program(c.lay, c.a & l.mask(), &c.prog, &c.s);
+    let get = |name: &str| outs.iter().find(|(n, _)| *n == name).map(|x| x.1.clone());
+    let mut cur = c.a & l.mask();
+    let mut hist = vec![cur];
+    let mut note = format!("start={:#x} ", cur);
+    if l.int_bits() == 0 {
+        ev.class("int-bits=0");
+    }
+    for (i, (wop, x, y)) in c.prog.iter().take(MAX_STEPS).enumerate() {
+        let got = match get(S_LABELS[i]) {
+            Some(g) => g,
+            None => {
+                ev.fails.push(Fail { label: S_LABELS[i].into(), got: "missing".into(), want: "a value after every step".into() });
+                break;
+            }
+        };
+        if note.len() < 220 {
+            note.push_str(&format!("{}:{}={} ", i, W_NAMES[*wop as usize % W_NAMES.len()], got.show()));
+        }
+        ev.class(W_NAMES[*wop as usize % W_NAMES.len()]);
+        if *wop == W_SHIFT {
+            let kl = vcore::INTS[(y & 0xff) as usize % 12].as_l();
+            let amt = kl.val(*x);
+            if amt.is_neg() {
+                ev.class("shift-negative-amount");
+            } else if amt >= Big::from_u64(l.w as u64) {
+                ev.class("shift-amount>=width");
+            }
+        }
+        if matches!(*wop, W_BIN | W_INT_OP | W_SHIFT) {
+            let form = if *wop == W_SHIFT { (y >> 16) % 6 } else { (y >> 8) % 6 };
+            if (1..=3).contains(&form) {
+                ev.class("by-reference-form");
+            } else if form >= 4 {
+                ev.class("assign-form");
+            }
+        }
+        let ms = model_step(l, cur, &hist, *wop, *x, *y, &c.s);
+        let mut fail = |ev: &mut Eval, label: &str, got: &Out, want: String| {
+            ev.fails.push(Fail { label: format!("{} ({})", label, W_NAMES[*wop as usize % W_NAMES.len()]), got: got.show(), want });
+        };
+        match ms {
+            Step::MayPanic => {
+                ev.class(if matches!(*wop, W_FROM_F64 | W_FROM_F32) { "non-finite-float" } else { "zero-divisor" });
+                // allowed to unwind; the program ends here either way (state after it is not specified)
+                break;
+            }
+            Step::ParseErr => {
+                ev.class("from_str-error");
+                if !matches!(got, Out::E(_)) {
+                    fail(&mut ev, S_LABELS[i], &got, "Err(_) for a malformed literal, value unchanged".into());
+                    break;
+                }
+            }
+            Step::NotAvail => {}
+            Step::Val(want, ovf) => {
+                if ovf {
+                    ev.class("step-overflowed");
+                    ev.nontrivial = true;
+                }
+                if got != Out::V(want) {
+                    // the known div_euclid findings (C07) surface through Wrapping as well
+                    let known = if matches!(*wop, W_DIV_EUCLID | W_DIV_EUCLID_INT) {
+                        let op = if *wop == W_DIV_EUCLID { DIV_EUCLID } else { DIV_EUCLID_INT };
+                        kf::matches(kf, "C07", l, op, cur, x & l.mask(), "wrapping", &got, &Exact::Split, chk)
+                    } else {
+                        None
+                    };
+                    match (known, &got) {
+                        (Some(id), Out::V(v)) => {
+                            if !ev.known.contains(&id) {
+                                ev.known.push(id);
+                            }
+                            // resynchronise the model with the library to keep checking the later steps
+                            cur = *v;
+                            hist.push(cur);
+                            continue;
+                        }
+                        _ => {
+                            fail(&mut ev, S_LABELS[i], &got, format!("{:#x} (exact result modulo 2^{}; value before the step {:#x})", want, l.w, cur));
+                            break;
+                        }
+                    }
+                }
+                // differential: the corresponding wrapping operation on F
+                if let Some(Out::V(d)) = get(D_LABELS[i]) {
+                    if d != want {
+                        fail(&mut ev, D_LABELS[i], &Out::V(d), format!("{:#x} (F's wrapping operation must agree with Wrapping<F>)", want));
+                        break;
+                    }
+                }
+                cur = want;
+                hist.push(cur);
+            }
+        }
+        if got.is_panic() {
+            fail(&mut ev, S_LABELS[i], &got, "no panic (only a zero divisor or a non-finite float may panic)".into());
+            break;
+        }
+    }
+    if c.prog.iter().any(|(w, _, _)| *w == W_FROM_STR) {
+        ev.class("from_str");
+    }
+    ev.note = note;
+    ev
 }
 
 fn int_frac_expect(l: L, a: u128, label: &str) -> Exp {
